@@ -1,0 +1,66 @@
+#pragma once
+/* Verification hooks: everything in this file is compiled only with -DGMGPOLAR_VERIF.
+ * Without the define VERIF_EV expands to nothing and no declaration of the library changes.
+ * An event is one NDJSON line written to a sink that a test harness installs; with no sink
+ * installed the hooks do nothing. Events are emitted from sequential code only. */
+#ifdef GMGPOLAR_VERIF
+#include <cstdarg>
+#include <cstdint>
+#include <cstdio>
+#include <cstring>
+#include <string>
+
+namespace gmgpolar_verif
+{
+inline FILE*& sink()
+{
+    static FILE* f = nullptr;
+    return f;
+}
+inline long& sequence()
+{
+    static long s = 0;
+    return s;
+}
+/* A double as three 21-bit limbs of its IEEE-754 pattern (magnitude), so that a model checker with
+ * 32-bit integers can order non-negative values exactly; "v" is the readable value. */
+inline std::string dbl(double v)
+{
+    uint64_t bits;
+    std::memcpy(&bits, &v, sizeof bits);
+    const uint64_t mag = bits & 0x7FFFFFFFFFFFFFFFull;
+    char buf[200];
+    std::snprintf(buf, sizeof buf, "{\"neg\":%d,\"nan\":%d,\"l2\":%llu,\"l1\":%llu,\"l0\":%llu,\"v\":\"%.17g\"}",
+                  (int)(bits >> 63), (int)(v != v), (unsigned long long)((mag >> 42) & 0x1FFFFF),
+                  (unsigned long long)((mag >> 21) & 0x1FFFFF), (unsigned long long)(mag & 0x1FFFFF), v);
+    return buf;
+}
+/* event("Name", "\"k\":%d,\"x\":%s", k, dbl(x).c_str()) */
+inline void event(const char* name, const char* fmt = nullptr, ...)
+{
+    FILE* f = sink();
+    if (!f)
+        return;
+    std::fprintf(f, "{\"seq\":%ld,\"e\":\"%s\"", ++sequence(), name);
+    if (fmt && *fmt) {
+        std::fputc(',', f);
+        va_list ap;
+        va_start(ap, fmt);
+        std::vfprintf(f, fmt, ap);
+        va_end(ap);
+    }
+    std::fputs("}\n", f);
+    std::fflush(f);
+}
+} // namespace gmgpolar_verif
+#define VERIF_EV(...)                                                                                                  \
+    do {                                                                                                               \
+        if (gmgpolar_verif::sink())                                                                                    \
+            gmgpolar_verif::event(__VA_ARGS__);                                                                        \
+    } while (0)
+#define VERIF_DBL(x) gmgpolar_verif::dbl(x).c_str()
+#else
+#define VERIF_EV(...)                                                                                                  \
+    do {                                                                                                               \
+    } while (0)
+#endif
